@@ -25,6 +25,7 @@ RULE = ('cases = random G-MPS programs x (per-layer search with every ordered pr
         'activations, 3x3/1x1), plus the probing spec.  Non-trivial: a non-uniform assignment, and '
         'for the pruning class at least one pruned channel upstream of a conv or linear consumer; '
         'distinct = hash of (program, search type, tuples, coefficients).')
+RULE += ('  Round 2: a convolution re-used at two resolutions (MACs summed per invocation, parameters once); non-zero padding modes.')
 ASSUMPTIONS = [
     'the reference uses only summary() and the seed program (weights per channel, MACs from the '
     'observed output shapes of the plain model)',
